@@ -39,7 +39,7 @@ func sameTyped(v fix.Value, want tv) bool {
 	return ok && zz.EqBytes(x, want.raw)
 }
 
-func (c *cmpCtl) compare(ds []*nd, items []fix.Item, depth int, forceFirst bool) {
+func (c *cmpCtl) compare(ds []*nd, items []fix.Item, depth int, forceFirst bool, eidx int) {
 	for i, d := range ds {
 		switch d.n {
 		case nLeaf:
@@ -57,13 +57,13 @@ func (c *cmpCtl) compare(ds []*nd, items []fix.Item, depth int, forceFirst bool)
 			zz.Assert(!kv.Value.IsNull(), "C02: populated field is null after parsing: tag "+d.tag)
 			zz.Assert(sameTyped(kv.Value, want), "C02: parsed value (or its Go type) differs from the serialized one: tag "+d.tag)
 		case nComp:
-			c.compare(d.kids, items[i].(*fix.Component).Items(), depth, false)
+			c.compare(d.kids, items[i].(*fix.Component).Items(), depth, false, eidx)
 		case nGroup:
 			g := items[i].(*fix.Group)
-			n := c.p.cnt[depth%3]
+			n := innerCount(c.p.cnt[depth%3], depth, eidx)
 			zz.Assert(len(g.Entries()) == n, "C02: number of group entries differs after parsing: group "+d.tag)
 			for e := 0; e < n; e++ {
-				c.compare(d.kids, g.Entries()[e], depth+1, c.p.first)
+				c.compare(d.kids, g.Entries()[e], depth+1, c.p.first, e)
 			}
 		}
 	}
@@ -91,9 +91,9 @@ func H_C02_roundtrip() {
 	zz.Assert(zz.EqBytes(b, orig), "C02: parsing modified the input bytes")
 	c := &cmpCtl{p: ctlFromParams(1), vals: p.vals}
 	c.p.first = true
-	c.compare(s.hdr, u.Header().Items(), 0, false)
-	c.compare(s.body, u.Body(), 0, false)
-	c.compare(s.trl, u.Trailer().Items(), 0, false)
+	c.compare(s.hdr, u.Header().Items(), 0, false, 0)
+	c.compare(s.body, u.Body(), 0, false, 0)
+	c.compare(s.trl, u.Trailer().Items(), 0, false, 0)
 	zz.Assert(u.MsgType() == s.mt, "C02: MsgType differs after parsing")
 	b2, err2 := u.ToBytes()
 	zz.Assert(err2 == nil, "C02: re-serialization returned an error")
